@@ -397,3 +397,111 @@ def r_axis_consistency(ck, P, rid):
                 ck.violation(R, f.name, what, '%s combines x-axis and y-axis header fields in one %s (%s): a kernel row or extent of one axis is selected with the phase or size of the other' % (f.name, x.op, what), x.loc())
     if n == 0:
         ck.incomplete(R, 'no product of header-derived values found in any reader of the parameter block')
+
+
+def r6_acceptance_domain(ck, P):
+    """the acceptance test refuses no block the writer can produce (partial evaluation of the acceptor for each header value)"""
+    R = ck.rule('C18-R6', 'for every phase-bit count 0..16 and every kernel width/height 1..64 the writer can announce, pixman_image_set_filter (filter = SEPARABLE_CONVOLUTION) still has a path to the point where it installs the block: no test of a header field alone refuses a well-formed block', floor=4)
+    f = P.fn('pixman_image_set_filter', required=False)
+    if f is None:
+        ck.incomplete(R, 'pixman_image_set_filter not found'); return
+    ck.saw(f)
+    sy = Sym(P, f)
+    SEP = P.enum_const('PIXMAN_FILTER_SEPARABLE_CONVOLUTION')
+    fp = [i for i, (pn, pt) in enumerate(f.params) if pn == 'filter']
+    accept = [x for x in f.insts() if x.op == 'store' and f.last_field(f.path(x.a[1])) == 'image_common.filter_params']
+    if not fp or not accept:
+        ck.incomplete(R, 'filter parameter or the store that installs filter_params not found'); return
+    hdr = {}
+    for x in f.insts():
+        if x.op == 'load':
+            k = sy.header_index(x.a[0])
+            if k is not None and k in (0, 1, 2, 3):
+                hdr[x.i] = k
+    if not {2, 3} <= set(hdr.values()):
+        ck.incomplete(R, 'set_filter no longer reads the phase-bit header fields'); return
+    M32 = (1 << 32) - 1
+
+    def sgn(v, bits=32):
+        v &= (1 << bits) - 1
+        return v - (1 << bits) if v >> (bits - 1) else v
+
+    def reach(fixed):
+        """is an installing store reachable when header field k has the raw value fixed[k] and filter == SEPARABLE?"""
+        seen = set(); work = [(0, None, ())]
+        while work:
+            b, prev, phis = work.pop()
+            if (b, prev, phis) in seen:
+                continue
+            seen.add((b, prev, phis))
+            pv = dict(phis)
+
+            def ev(o, d=0):
+                if d > 40:
+                    return None
+                if o[0] == 'c':
+                    return int(o[1])
+                if o[0] == 'a':
+                    return SEP if o[1] == fp[0] else None
+                if o[0] != 'v':
+                    return None
+                x = f.by_id[o[1]]
+                if x.i in pv:
+                    return pv[x.i]
+                if x.op == 'load':
+                    return fixed.get(hdr.get(x.i))
+                if x.op in ('zext', 'sext', 'trunc', 'freeze'):
+                    return ev(x.a[0], d + 1)
+                if x.op == 'call' and isinstance(x.callee, str) and x.callee.startswith('llvm.expect'):
+                    return ev(x.a[0], d + 1)
+                if x.op in ('add', 'sub', 'mul', 'shl', 'ashr', 'lshr', 'and', 'or', 'xor', 'icmp'):
+                    p_, q_ = ev(x.a[0], d + 1), ev(x.a[1], d + 1)
+                    if p_ is None or q_ is None:
+                        return None
+                    if x.op == 'icmp':
+                        pr = x.d['p']
+                        if pr in ('eq', 'ne'):
+                            return int((p_ == q_) == (pr == 'eq'))
+                        return int({'slt': p_ < q_, 'sle': p_ <= q_, 'sgt': p_ > q_, 'sge': p_ >= q_, 'ult': p_ < q_, 'ule': p_ <= q_, 'ugt': p_ > q_, 'uge': p_ >= q_}[pr])
+                    if x.op == 'shl':
+                        return sgn(p_ << q_) if 0 <= q_ < 32 else None
+                    if x.op in ('ashr', 'lshr'):
+                        return p_ >> q_ if 0 <= q_ < 64 else None
+                    r_ = {'add': p_ + q_, 'sub': p_ - q_, 'mul': p_ * q_, 'and': p_ & q_, 'or': p_ | q_, 'xor': p_ ^ q_}[x.op]
+                    w_ = int(x.ty[1:]) if x.ty.startswith('i') and x.ty[1:].isdigit() else 32
+                    return (r_ & 1) if w_ == 1 else sgn(r_, w_)
+                return None
+
+            blk = f.blocks[b]
+            for x in blk.insts:
+                if x.op == 'phi':
+                    for a, bb in zip(x.a, x.d['bb']):
+                        if bb == prev:
+                            pv[x.i] = ev(a)
+                if x in accept:
+                    return True
+            t = blk.term
+            nxt = list(blk.succ)
+            if t.op == 'br' and t.a:
+                v = ev(t.a[0])
+                if v is not None:
+                    nxt = [t.d['succ'][0] if v else t.d['succ'][1]]
+            elif t.op == 'switch':
+                v = ev(t.a[0])
+                if v is not None:
+                    cs = dict((int(c_), tgt) for c_, tgt in t.d.get('cases', []))
+                    nxt = [cs.get(v, t.d.get('default'))]
+            keep = tuple(sorted((k, v) for k, v in pv.items() if v is not None))
+            for n_ in nxt:
+                if n_ is not None:
+                    work.append((n_, b, keep))
+        return False
+
+    NAME = {0: 'kernel width', 1: 'kernel height', 2: 'x phase bits', 3: 'y phase bits'}
+    for k in (2, 3, 0, 1):
+        dom = range(0, 17) if k >= 2 else range(1, 65)
+        refused = [v for v in dom if not reach({k: v << 16})]
+        if refused:
+            ck.violation(R, f.name, 'refusal on %s' % NAME[k], 'pixman_image_set_filter cannot install a separable-convolution block whose %s is %s, whatever its length: pixman_filter_create_separable_convolution produces such blocks, so a well-formed block is not accepted' % (NAME[k], ', '.join(str(v) for v in refused[:5]) + (' ...' if len(refused) > 5 else '')), '%s:%d' % (f.unit.name, f.line))
+        else:
+            ck.ok(R, 'every %s in %d..%d can be installed' % (NAME[k], dom[0], dom[-1]))
